@@ -27,6 +27,18 @@
 
 static struct event_base *base;
 static long live0; static uint64_t fds0;
+
+/* Driver parameters: explorer choices under the scheduler; decoded from the item
+ * index in the free-running (TSan) build, where mc_choose is not available. */
+static int free_mode; static uint64_t free_item;
+static int pick(int n, const char *label)
+{
+	if (!free_mode) return mc_choose(n, 0, label);
+	int r = (int)(free_item % n); free_item /= n; return r;
+}
+#ifdef C09_FREE
+void sched_set_jitter(unsigned seed);
+#endif
 static void quiet(int sev, const char *m) { (void)sev; (void)m; }
 
 static void init(void)
@@ -119,8 +131,8 @@ static void scen_wake(void)
 	wk.ev_act = event_new(base, -1, 0, act_cb, NULL);
 	wk.ev_tmr = evtimer_new(base, tmr_cb, NULL);
 	wk.ev_io = event_new(base, wk.pipefd[0], EV_READ, io_cb, NULL);
-	wk.nops = 1 + mc_choose(2, 0, "nops");
-	for (int i = 0; i < wk.nops; i++) wk.ops[i] = 1 + mc_choose(4, 0, "op");
+	wk.nops = 1 + pick(2, "nops");
+	for (int i = 0; i < wk.nops; i++) wk.ops[i] = 1 + pick(4, "op");
 	mc_observe("wake ops: %s", wake_opname[wk.ops[0]]);
 	if (wk.nops > 1) mc_observe(" ; %s", wake_opname[wk.ops[1]]);
 	arm_started();
@@ -184,10 +196,10 @@ static void scen_del(void)
 	begin();
 	if (pipe2(dl.pipefd, O_NONBLOCK | O_CLOEXEC) < 0) abort();
 	if (write(dl.pipefd[1], "x", 1) != 1) abort();
-	dl.variant = mc_choose(4, 0, "variant");
+	dl.variant = pick(4, "variant");
 	/* event_free() of an EV_FINALIZE event whose callback may be running is documented misuse
 	 * (event_free_finalize exists for that), so that combination is not driven */
-	dl.finalize = dl.variant == 3 ? 0 : mc_choose(2, 0, "finalize");
+	dl.finalize = dl.variant == 3 ? 0 : pick(2, "finalize");
 	dl.far = evtimer_new(base, far_cb, NULL); event_add(dl.far, &hour);
 	dl.ev = event_new(base, dl.pipefd[0], EV_READ | EV_PERSIST | (dl.finalize ? EV_FINALIZE : 0), del_cb, NULL);
 	event_add(dl.ev, NULL);
@@ -258,7 +270,7 @@ static void scen_buf(void)
 	bf.a = evbuffer_new(); bf.b = evbuffer_new();
 	evbuffer_enable_locking(bf.a, NULL); evbuffer_enable_locking(bf.b, NULL);
 	evbuffer_add(bf.a, "01", 2); evbuffer_add(bf.b, "pq", 2);
-	for (int t = 0; t < 2; t++) for (int i = 0; i < 2; i++) bf.ops[t][i] = menu[mc_choose(NM, 0, "bufop")];
+	for (int t = 0; t < 2; t++) for (int i = 0; i < 2; i++) bf.ops[t][i] = menu[pick(NM, "bufop")];
 	mc_observe("buf t1:[%s,%s] t2:[%s,%s]", bop_name[bf.ops[0][0].kind], bop_name[bf.ops[0][1].kind], bop_name[bf.ops[1][0].kind], bop_name[bf.ops[1][1].kind]);
 	int t1 = sched_spawn(buf_actor, (void *)0L);
 	int t2 = sched_spawn(buf_actor, (void *)1L);
@@ -308,7 +320,7 @@ static void scen_bev(void)
 	struct timeval hour = { 3600, 0 };
 	memset(&bv, 0, sizeof bv); far_fired = 0;
 	begin();
-	int opts = BEV_OPT_THREADSAFE | (mc_choose(2, 0, "defer") ? BEV_OPT_DEFER_CALLBACKS : 0);
+	int opts = BEV_OPT_THREADSAFE | (pick(2, "defer") ? BEV_OPT_DEFER_CALLBACKS : 0);
 	struct event *far = evtimer_new(base, far_cb, NULL); event_add(far, &hour);
 	bufferevent_pair_new(base, opts, bv.p);
 	bufferevent_setcb(bv.p[1], bv_read, NULL, bv_event, NULL);
@@ -333,17 +345,43 @@ static void scen_bev(void)
 	finish();
 }
 
+static const char *scen_arg = NULL;
 static void body(void)
 {
-	const char *s = mc_param_str("scen", "wake");
+	const char *s = scen_arg ? scen_arg : mc_param_str("scen", "wake");
 	if (!strcmp(s, "wake")) scen_wake();
 	else if (!strcmp(s, "del")) scen_del();
 	else if (!strcmp(s, "buf")) scen_buf();
 	else if (!strcmp(s, "bev")) scen_bev();
 }
 
+#ifdef C09_FREE
+/* free-running pass: item = (repetition, driver parameters); repetition only changes the jitter */
+static uint64_t combo_cap;
+static uint64_t combos(const char *s) { uint64_t c = !strcmp(s, "wake") ? 32 : !strcmp(s, "del") ? 8 : !strcmp(s, "buf") ? 2401 : 2; return combo_cap && combo_cap < c ? combo_cap : c; }
+static void free_item_fn(uint64_t i)
+{
+	uint64_t c = combos(scen_arg);
+	free_mode = 1; free_item = i % c;
+	sched_set_jitter((unsigned)i);
+	body();
+	MC_COUNT("tsan_free_runs");
+	mc_nontrivial(i + 1);
+}
+#endif
+
 int main(int argc, char **argv)
 {
 	struct mc_config cfg = { .property = "C09", .body = body, .init = init, .default_split = 3 };
+#ifdef C09_FREE
+	int reps = 4;
+	scen_arg = "wake";
+	for (int i = 1; i + 1 < argc; i++) if (!strcmp(argv[i], "-P")) {
+		if (!strncmp(argv[i + 1], "scen=", 5)) scen_arg = argv[i + 1] + 5;
+		if (!strncmp(argv[i + 1], "reps=", 5)) reps = atoi(argv[i + 1] + 5);
+		if (!strncmp(argv[i + 1], "combos=", 7)) combo_cap = strtoull(argv[i + 1] + 7, NULL, 10);
+	}
+	cfg.body = NULL; cfg.item = free_item_fn; cfg.n_items = combos(scen_arg) * reps;
+#endif
 	return mc_main(argc, argv, &cfg);
 }
